@@ -37,6 +37,7 @@ def run_one(item):
         out = {p: "stale" for p in props}
     else:
         env = dict(os.environ, VERIF_REPO=repo, VERIF_JOBS="6",
+                   VERIF_EVIDENCE_DIR="/dev/shm/verif-selftest-evidence",
                    VERIF_SEED=os.environ.get("VERIF_SEED", "1"))
         for p in props:
             rr = subprocess.run(["python3-vt", "checks/%s.py" % p, "--tier",
